@@ -8,5 +8,5 @@ for D in "$VERIF"/seeded/S*/; do
   [ -n "$FILTER" ] && [[ "$SID" != *$FILTER* ]] && continue
   PROPS="$(python3 -c "import json;print(' '.join(p for p in json.load(open('$D/meta.json'))['breaks'] if p!='C14'))")"
   [ -z "$PROPS" ] && PROPS="C14"
-  "$VERIF/mutant_test.sh" "$SID" "$D/patch.diff" "$SCALE" $PROPS 2>&1 | grep -E "^\[|^ +property" | sed -E 's/^ +property (C[0-9]+) tier quick seed [0-9]+: ([0-9]+) runs .* ([0-9]+) violations.*/      \1: \3 violations in \2 runs/' 
+  "$VERIF/mutant_test.sh" "$SID" "$D/patch.diff" "$SCALE" $PROPS 2>&1 | grep -E "^\[|^ +property|^build failed|^patch does not apply|^worktree failed" | sed -E 's/^ +property (C[0-9]+) tier quick seed [0-9]+: ([0-9]+) runs .* ([0-9]+) violations.*/      \1: \3 violations in \2 runs/' 
 done
